@@ -89,6 +89,10 @@ def current_pins() -> dict:
     return {f"{rel}:{cls or ''}:{name}": norm_fn(rel, name, cls) for rel, name, cls in PINNED_FUNCS}
 
 
+UPDATE_AFTER_KEY = f"{CORE}/scheduler.py:Scheduler:_update_meta_after"
+_FIRST0_RE = re.compile(r"^(\s*)first = (True|False)$", re.M)
+
+
 def check_pins():
     from . import gen_sched_pins
     cur = current_pins()
@@ -96,8 +100,29 @@ def check_pins():
         exp = gen_sched_pins.PINS.get(key)
         if exp is None:
             raise TranslatorError(f"no pinned source for {key}")
+        if key == UPDATE_AFTER_KEY:
+            # the initial value of `first` is translated (first_round_value), everything else is pinned
+            exp = _FIRST0_RE.sub(r"\1first = <FIRST0>", exp, count=1)
+            text = _FIRST0_RE.sub(r"\1first = <FIRST0>", text, count=1)
         if exp.rstrip("\n") != text.rstrip("\n"):
             raise TranslatorError(f"source of {key} differs from the shape the model mirrors")
+
+
+def first_round_value() -> bool:
+    """Scheduler._update_meta_after: the value its variable `first` has in the first iteration of the loop (the
+    statement before the `while`); the assignment inside the loop must be `first = False`."""
+    fn = find_function(parse_module(f"{CORE}/scheduler.py"), "_update_meta_after", "Scheduler")
+    outer = [n for n in fn.body if isinstance(n, ast.Assign) and len(n.targets) == 1
+             and isinstance(n.targets[0], ast.Name) and n.targets[0].id == "first"]
+    loops = [n for n in fn.body if isinstance(n, ast.While)]
+    if len(outer) != 1 or len(loops) != 1 or not isinstance(outer[0].value, ast.Constant) \
+            or not isinstance(outer[0].value.value, bool) or fn.body.index(outer[0]) > fn.body.index(loops[0]):
+        raise TranslatorError("_update_meta_after: initial assignment of `first` not recognised")
+    inner = [n for n in ast.walk(loops[0]) if isinstance(n, ast.Assign) and len(n.targets) == 1
+             and isinstance(n.targets[0], ast.Name) and n.targets[0].id == "first"]
+    if len(inner) != 1 or not (isinstance(inner[0].value, ast.Constant) and inner[0].value.value is False):
+        raise TranslatorError("_update_meta_after: `first` is not reset to False inside the loop")
+    return outer[0].value.value
 
 
 # ---------------------------------------------------------------------------------------------
@@ -744,6 +769,8 @@ def generate():
     facts["check_after_sources_where"] = cas
 
     rparts = parse_reconcile_targets(E)
+    first0 = first_round_value()
+    facts["after_first_round"] = first0
     facts["reconcile_parts"] = list(rparts)
     trg = parse_triggers(_const(ST, "STEP_SCHEMA"))
 
@@ -828,6 +855,8 @@ def generate():
     o.append(f"Definition after_elev_target : N := {ND.TARGET.value}.")
     o.append(f"Definition after_dir_guard_need : N := {ND.DEFAULT.value}.")
     o.append(f"Definition after_elev_none : N := {ND.OPTIONAL.value}.")
+    o.append("(* Scheduler._update_meta_after: the value of `first` in the first iteration of the loop *)")
+    o.append(f"Definition after_first_round : bool := {'true' if first0 else 'false'}.")
     o.append(f"Definition after_sink_default : N := {ND.OPTIONAL.value}.")
     o.append("(* the label range of a directory target: label <op> target_dir.path AND label <op> target_dir.upper *)")
     o.append(f"Definition after_dir_lower : cmpop := {dir_ops[0]}.")
